@@ -2065,6 +2065,8 @@ class Interp:
 
     # ------------------------------------------------------------------ calls
     def eval_Call(self, node):
+        if isinstance(node.func, ast.Attribute) and node.func.attr == "isEnabledFor" and isinstance(node.func.value, ast.Name) and "log" in node.func.value.id.lower():
+            return Sym(("log-enabled",), "bool")  # (one predicate however often it is asked: the level does not change inside a call)
         fv = self.eval(node.func)
         args = []
         for a in node.args:
@@ -2611,6 +2613,17 @@ class Interp:
         # a test of the logging level whose branches only log (or are empty) has no effect on the analysed state
         if self.is_log_guard(node.test) and self.only_logs(node.body) and self.only_logs(node.orelse):
             return
+        # the same with the test bound to a name first (`enabled = logger.isEnabledFor(..)` / `if enabled:`)
+        nt_ = node.test
+        while isinstance(nt_, ast.UnaryOp) and isinstance(nt_.op, ast.Not):
+            nt_ = nt_.operand
+        if isinstance(nt_, ast.Name) and self.only_logs(node.body) and self.only_logs(node.orelse):
+            try:
+                v_ = self.eval(nt_)
+            except Exception:  # noqa: BLE001 - an unbound name is reported where it is really read
+                v_ = None
+            if isinstance(v_, Sym) and v_.label == ("log-enabled",):
+                return
         t = self.eval(node.test)
         if self.truth(t):
             self.exec_block(node.body)
